@@ -161,6 +161,8 @@ class SimPool(cf.Executor):
         if self._real is not None:
             return self._real.submit(fn, *a, **k)
         rt, sim, pool = self.rt, self.rt.sim, self
+        if self.closed:
+            raise RuntimeError("cannot schedule new futures after shutdown")
         f = SimFuture()
         nid = node_of(fn)
         f.nid = nid
@@ -473,6 +475,9 @@ def install_pre() -> None:
         return
     if "tawazi" in sys.modules:
         INSTALLED["late"] = True
+    # futures created directly by the code under test (concurrent.futures.Future()) get the deterministic hash too
+    cf.Future = SimFuture  # type: ignore[misc,assignment]
+    cf._base.Future = SimFuture  # type: ignore[attr-defined,misc]
     cf.ThreadPoolExecutor = SimPool  # type: ignore[misc,assignment]
     cf_thread.ThreadPoolExecutor = SimPool  # type: ignore[misc,assignment]
     cf.wait = sim_wait  # type: ignore[assignment]
